@@ -260,40 +260,76 @@ let rec carrier_of_name (s : string) : carrier option =
        | _ -> None)
 
 (* BTree / Hash carriers return sets and maps sorted (or in hash order) and without duplicates
-   (a later map entry replaces an earlier one): compare such results up to that canonical form *)
-let rec canon_val (v : cval) : cval =
-  let dedup_sorted key l =
-    let l = List.stable_sort (fun a b -> compare (key a) (key b)) l in
-    let rec go = function
-      | a :: (b :: _ as r) when key a = key b -> go r        (* keep the LAST of equal keys *)
-      | a :: r -> a :: go r
-      | [] -> [] in go l in
-  match v with
-  | CSet l -> CSet (dedup_sorted s_val (List.map canon_val l))
-  | CMap l -> CMap (dedup_sorted (fun (k, _) -> s_val k) (List.map (fun (k, x) -> (canon_val k, canon_val x)) l))
-  | CList l -> CList (List.map canon_val l)
-  | CVector l -> CVector (List.map canon_val l)
-  | CTuple l -> CTuple (List.map (Option.map canon_val) l)
-  | CUdt (a, b, fs) -> CUdt (a, b, List.map (fun (n, o) -> (n, Option.map canon_val o)) fs)
-  | _ -> v
-let canon_cell = function CVal v -> CVal (canon_val v) | c -> c
+   (a later map entry replaces an earlier one): compare such results up to that canonical form.
+   Works on the TEXT form (which may contain `null` elements that no cval can hold). *)
+let split_top (sep : char) (s : string) : string list =
+  let parts = ref [] and depth = ref 0 and st = ref 0 in
+  String.iteri (fun j ch ->
+      if ch = '(' then incr depth else if ch = ')' then decr depth
+      else if ch = sep && !depth = 0 then (parts := String.sub s !st (j - !st) :: !parts; st := j + 1)) s;
+  List.rev (String.sub s !st (String.length s - !st) :: !parts)
+let rec canon_str (s : string) : string =
+  let n = String.length s in
+  match String.index_opt s '(' with
+  | Some i when n > 0 && s.[n - 1] = ')' ->
+    let name = String.sub s 0 i and inner = String.sub s (i + 1) (n - i - 2) in
+    let items = if inner = "" then [] else split_top ';' inner in
+    let dedup_sorted key l =
+      let l = List.stable_sort (fun a b -> compare (key a) (key b)) l in
+      let rec go = function
+        | a :: (b :: _ as r) when key a = key b -> go r        (* keep the LAST of equal keys *)
+        | a :: r -> a :: go r
+        | [] -> [] in go l in
+    let items =
+      if name = "map" then
+        let kvs = List.map (fun it -> match split_top '=' it with
+            | [k; v] -> (canon_str k, canon_str v) | _ -> (it, "")) items in
+        List.map (fun (k, v) -> k ^ "=" ^ v) (if name = "map" then dedup_sorted fst kvs else kvs)
+      else if name = "udt" then items
+      else
+        let its = List.map canon_str items in
+        if name = "set" then dedup_sorted (fun x -> x) its else its in
+    name ^ "(" ^ String.concat ";" items ^ ")"
+  | _ -> s
 let canon_result (s : string) : string =
-  match strip_ok s with
-  | Some body -> (try "ok:" ^ s_cell (canon_cell (cell_of_string body)) with _ -> s)
-  | None -> s
+  match strip_ok s with Some body -> "ok:" ^ canon_str body | None -> s
 let sorting_carrier (carrier : string) : bool = contains carrier "BTree" || contains carrier "Hash"
 
+(* a carrier value in the text form of the case files, nulls inside collections included
+   (mirrors Carrier::show of the runner) *)
+let rec s_tval (k : carrier) (t : ctype) (v : tval) : string =
+  let seq name k' e l = name ^ "(" ^ String.concat ";" (List.map (s_tval k' e) l) ^ ")" in
+  match k, v, t with
+  | KLeaf l, _, _ -> (match leaf_embed l t v with Some x -> s_val x | None -> "?")
+  | KDyn, TDynV x, _ -> s_val x
+  | KOption _, TNone, _ -> "null"
+  | KMaybeEmpty _, TEmptyV, _ -> "empty"
+  | (KOption k' | KMaybeEmpty k' | KPtr k'), TSome x, _ -> s_tval k' t x
+  | (KVec k' | KSetC k'), TSeq l, TList e -> seq "list" k' e l
+  | (KVec k' | KSetC k'), TSeq l, TSet e -> seq "set" k' e l
+  | KVec k', TSeq l, TVector (e, _) -> seq "vector" k' e l
+  | KMapC (ka, kb), TMapV l, TMap (tk, tv) ->
+    "map(" ^ String.concat ";" (List.map (fun (a, b) -> s_tval ka tk a ^ "=" ^ s_tval kb tv b) l) ^ ")"
+  | KTuple ks, TTup vs, TTuple ts ->
+    let rec go ks ts vs = match ks, ts, vs with
+      | k1 :: ks', t1 :: ts', v1 :: vs' -> s_tval k1 t1 v1 :: go ks' ts' vs'
+      | _ -> [] in
+    "tuple(" ^ String.concat ";" (go ks ts vs) ^ ")"
+  | _ -> "?"
+
+(* the carrier's own decoder (model) on one [bytes] item *)
 let s_typed_read k t (b : n list) : string =
-  match typed_read_cell k t b with
-  | Ok (Some c) -> "ok:" ^ s_cell c
-  | Ok None -> "unembeddable"
-  | Err e -> "err:" ^ de_err_name e
+  match read_cql_bytes b with
+  | None -> "err:RawCqlBytesRead"
+  | Some (ob, _) ->
+    (match typed_read k t ob with
+     | Ok v -> "ok:" ^ s_tval k t v
+     | Err e -> "err:" ^ de_err_name e)
 
 (* the TYPED model against the typed implementation, for a T case; None = agrees / not comparable *)
 let typed_compared = ref false
-let typed_partial = ref false      (* the decoded carrier value has no dynamic counterpart: bytes compared, decode not *)
 let typed_model_diff ~unordered carrier t c impl_ser impl_deser : string option =
-  typed_compared := false; typed_partial := false;
+  typed_compared := false;
   match carrier_of_name carrier with
   | None -> None
   | Some k ->
@@ -307,8 +343,7 @@ let typed_model_diff ~unordered carrier t c impl_ser impl_deser : string option 
          | Some hx when typed_check k t ->
            let mr = s_typed_read k t (bytes_of_hexstr hx) in
            let norm x = if unordered || sorting_carrier carrier then canon_result x else x in
-           if mr = "unembeddable" then (typed_partial := true; None)
-           else if norm mr = norm impl_deser then None else Some ("typed-model deser=" ^ mr)
+           if norm mr = norm impl_deser then None else Some ("typed-model deser=" ^ mr)
          | _ -> None)
 
 (* ---------------------------------------------------------------- verdicts *)
@@ -371,7 +406,7 @@ let verdict_rt ?(carrier = "") ~(unordered : bool) t c impl_ser impl_deser =
          (* the typed carrier's own model (Model/CqlTyped.v) against the typed implementation *)
          if carrier = "" then "ok"
          else match typed_model_diff ~unordered carrier t c impl_ser impl_deser with
-           | None -> if !typed_partial then "ok tm-partial" else if !typed_compared then "ok tm" else "ok"
+           | None -> if !typed_compared then "ok tm" else "ok"
            | Some d -> "diff " ^ d)
   | Some (kind, why) ->
     (match cls with
@@ -404,7 +439,7 @@ let verdict case impl =
        else
          let m = s_typed_read k t (bytes_of_hexstr hx) in
          let norm x = if sorting_carrier carrier then canon_result x else x in
-         if m = "unembeddable" then "ok unembeddable" else if norm m = norm ideser then "ok" else "diff typed-model=" ^ m)
+         if norm m = norm ideser then "ok" else "diff typed-model=" ^ m)
   | [("V" | "Q") as kind; _carrier; ets; dims; cs], [iser; ideser] ->
     let e = type_of_string ets and cells = cells_of_string cs in
     let vals = List.filter_map (function CVal v -> Some v | _ -> None) cells in
